@@ -98,6 +98,12 @@ def _rel_err(x, xref, nf, nc, A=None, b=None):
     if nf:
         out = max(out, np.abs(x[:nf] - xref[:nf]).max() / max(su, floor))
     out = max(out, np.abs(x[nf:nf + nc] - xref[nf:nf + nc]).max() / max(sp, floor))
+    if len(x) > nf + nc and A is not None and b is not None:
+        # the multiplier of the pressure constraint (zero for compatible data), in the units of the mass
+        # balance rows it enters: against the mass source and |D| times the (natural) flux scale
+        sl = max(float(np.abs(np.asarray(b, float)[nf:nf + nc]).max()),
+                 float(np.abs(np.asarray(A, float)[nf:nf + nc, :nf]).max()) * su if nf else 0.0)
+        out = max(out, float(np.abs(x[nf + nc:] - xref[nf + nc:]).max()) / max(sl, floor))
     return float(out)
 
 
@@ -117,6 +123,14 @@ def _case_setup(case):
 def _tags(case, **kw):
     t = {"dim": len(case["shape"]), "vk": case.get("vk", "")}
     t.update(kw)
+    # does the AMG hierarchy of an iterative back-end have more than one level?  pyamg coarsens while the
+    # level has more than max_coarse (default 100) unknowns; the reduced systems have cells + 1
+    # (flux-eliminated, with the multiplier) resp. cells - 1 (pressure only) unknowns
+    if kw.get("solver") in ("amg", "cg"):
+        nc = int(np.prod(case["shape"]))
+        n = nc + 1 if str(kw.get("formulation", "")).replace("-", "_") == "flux_reduced" else nc - 1
+        mc = case.get("max_coarse")
+        t["multilevel"] = bool(n > (mc if mc is not None else 100))
     return t
 
 
@@ -153,11 +167,12 @@ VOXC = {"unit": [1.0, 1.0, 1.0], "pow2": [0.5, 4.0, 0.125], "generic": [0.3, 1.7
 
 def enum_direct(tier):
     out = []
-    for i, s in enumerate(all_shapes("quick")):
+    for i, s in enumerate(all_shapes(tier)):
         if int(np.prod(s)) < 2:
             continue
-        vk = ["unit", "pow2", "generic", "tiny", "huge"][i % 5]
-        out.append({"shape": s, "vox": VOXC[vk][: len(s)], "vk": vk, "pseed": i, "wk": "var"})
+        for rep in range(1 if tier == "quick" else 2):  # thorough: every shape with two voxel classes / systems
+            vk = ["unit", "pow2", "generic", "tiny", "huge"][(i + 2 * rep) % 5]
+            out.append({"shape": s, "vox": VOXC[vk][: len(s)], "vk": vk, "pseed": i + 7919 * rep, "wk": "var"})
     return out
 
 
@@ -246,8 +261,24 @@ def gen_iterative(tier):
                 # power-of-two size of the data: 1, tiny (mm-sized images in SI units), large
                 "rhs_exp": draw(st.sampled_from([0, 0, -30, -44, 24])),
                 "zero_flux_rhs": draw(st.booleans()),
+                # documented pyamg option: a small coarsest level forces a genuine multigrid hierarchy
+                # (several levels) on the small grids of this check; None = single level (exact coarse solve)
+                "max_coarse": draw(st.sampled_from([None, None, 2, 5, 10])),
                 "pseed": draw(st.integers(0, 2**20))}
     return strat()
+
+
+def _amg_state(w1):
+    """(levels, converged) of a stand-alone AMG back-end after a solve: pyamg stops on
+    ||r|| <= tol * ||b|| or after maxiter cycles and reports neither; the residual history tells."""
+    ls = getattr(w1, "linear_solver", None)
+    levels = len(getattr(ls, "levels", [])) if ls is not None else 0
+    hist = list(getattr(w1, "amg_residual_history", []) or [])
+    so = getattr(w1, "solver_options", {}) or {}
+    conv = None
+    if hist and "maxiter" in so:
+        conv = (len(hist) - 1) < so["maxiter"]
+    return levels, conv
 
 
 def check_backends(case):
@@ -263,14 +294,15 @@ def check_backends(case):
     g = darsia.Grid(shape=tuple(case["shape"]), voxel_size=list(case["vox"]))
     opts = {"formulation": form, "linear_solver": solver}
     scale = 2.0 ** case.get("rhs_exp", 0)
-    if case["default_tol"] and solver == "amg" and scale != 1.0:
-        # the default tolerance of the AMG back-end is an absolute residual norm (1e-6): it is not meant
-        # for data of another magnitude, the user scales it along (tight branch below)
-        lso, tol = None, 1e-9
     if solver != "direct":
-        # absolute tolerances are given in the units of the data
-        opts["linear_solver_options"] = lso if lso is not None else {"atol": 1e-13 * scale, "rtol": 1e-13,
-                                                                     "maxiter": 600}
+        # scipy's cg takes an absolute tolerance in the units of the data next to the relative one; the
+        # "atol" of the AMG back-end is handed to pyamg as `tol`, which is relative to ||b||
+        opts["linear_solver_options"] = lso if lso is not None else {
+            "atol": 1e-13 * (scale if solver == "cg" else 1.0), "rtol": 1e-13, "maxiter": 600}
+    mc = case.get("max_coarse")
+    if mc is not None and solver != "direct":
+        opts["amg_options"] = {"max_coarse": int(mc)}
+    t.setdefault("multilevel", False)
     with warnings.catch_warnings():
         warnings.simplefilter("ignore")
         w1 = darsia.WassersteinDistanceBregman(g, None, opts)
@@ -280,33 +312,52 @@ def check_backends(case):
     b = b * scale
     xref = np.linalg.solve(A, b)
     cond = _equilibrated_cond(A)
+    np.random.seed(case["pseed"] % (2**31))  # pyamg's set-up draws from numpy's global generator
     x = _solve(w1, A, b)
     err = _rel_err(x, xref, ref.num_faces, ref.num_cells, A, b)
+    levels, amg_conv = _amg_state(w1) if solver == "amg" else (0, None)
+    t["amg_converged"] = amg_conv
     if err > 10 * tol * cond:
+        if solver == "amg" and amg_conv is False:
+            # the stand-alone multigrid iteration ran out of cycles without reaching its tolerance and
+            # said nothing: "up to solver tolerance" is not met, under a kind of its own
+            raise Violation(f"amg-unconverged-silent:{form}", f"AMG stopped after {w1.solver_options['maxiter']} "
+                            f"cycles at relative residual {w1.amg_residual_history[-1] / max(w1.amg_residual_history[0], 1e-300):.2e} "
+                            f"without warning; block-wise relative error {err:.3e} (cond {cond:.2e}, {levels} levels)", t)
         raise Violation(f"dense-mismatch:{form}:{solver}", f"block-wise relative error {err:.3e} (cond {cond:.2e}, "
                         f"{'default' if case['default_tol'] else 'tight'} tolerances)", t)
-    return Outcome(_nt(case), [case["shape"], case["vox"], form, solver, case["pseed"]],
+    return Outcome(_nt(case), [case["shape"], case["vox"], form, solver, case["pseed"], mc],
                    (f"dim{len(case['shape'])}", form, solver,
                     "default-tol" if case["default_tol"] else "tight-tol",
-                    f"rhs-2^{case.get('rhs_exp', 0)}", "zero-flux-rhs" if case.get("zero_flux_rhs") else "full-rhs"))
+                    f"rhs-2^{case.get('rhs_exp', 0)}", "zero-flux-rhs" if case.get("zero_flux_rhs") else "full-rhs",
+                    "multilevel" if t["multilevel"] else "single-level"))
 
 
 def gen_reuse(tier):
     @st.composite
     def strat(draw):
         g = draw(wass.grid_specs(max_cells={1: 30, 2: 7, 3: 4}, min_cells=2))
+        n = draw(st.integers(2, 5))
+        # one object, a sequence of systems: each step either brings a new matrix (then the solver must be
+        # set up afresh - except on the very first call, where asking for re-use is allowed and simply
+        # sets up) or keeps the matrix (then re-use or a fresh set-up are both right); this is how the
+        # Bregman iteration drives it: (new, fresh), (same, reuse), (same, reuse), (new, fresh), ...
+        steps = []
+        for k in range(n):
+            new = k == 0 or draw(st.booleans())
+            reuse = draw(st.booleans()) if (not new or k == 0) else False
+            steps.append([bool(new), bool(reuse)])
         return {"shape": g["shape"], "vox": g["vox"], "vk": g["vk"],
                 "form": draw(st.sampled_from(FORMS)),
                 "solver": draw(st.sampled_from(["direct", "direct", "amg", "cg"])),
-                "n": draw(st.integers(2, 3)),
-                "same_matrix": draw(st.booleans()),
+                "steps": steps,
                 "pseed": draw(st.integers(0, 2**20))}
     return strat()
 
 
 def check_reuse(case):
-    """Sequences of systems on one object: reuse_solver=True on an unchanged matrix equals a
-    fresh solve; reuse_solver=False with changing matrices is always right."""
+    """Sequences of systems on one object: reuse_solver=True on an unchanged matrix (or on the first
+    call) equals a fresh solve; reuse_solver=False is always right."""
     ref, rng = _case_setup(case)
     form, solver = case["form"], case["solver"]
     if form == "full" and solver != "direct":
@@ -314,30 +365,38 @@ def check_reuse(case):
     t = _tags(case, formulation=form, solver=solver)
     w1, g = _mk(case["shape"], case["vox"], form, solver)
     pinned = int(w1.constrained_cell_flat_index)
-    wts = _weights(rng, ref.num_faces, "var")
+    steps = case.get("steps")
+    if steps is None:  # replay files written before the step list existed
+        steps = [[k == 0 or not case["same_matrix"], bool(case["same_matrix"] and k > 0)] for k in range(case["n"])]
+    wts = None
     tol = 1e-11 if solver == "direct" else 1e-8
     kept = []
-    for k in range(case["n"]):
-        if not case["same_matrix"] and k > 0:
+    for k, (new, reuse) in enumerate(steps):
+        if new or wts is None:
             wts = _weights(rng, ref.num_faces, "var")
         A, b = _system(ref, pinned, wts, rng)
-        reuse = case["same_matrix"] and k > 0
-        x = _solve(w1, A, b, reuse=reuse)
+        try:
+            x = _solve(w1, A, b, reuse=reuse)
+        except AttributeError as e:
+            raise Violation(f"sequence:unusable:{form}:{solver}", f"step {k} (new matrix {new}, reuse_solver={reuse}): "
+                            f"{type(e).__name__}: {e}", t)
         xref = np.linalg.solve(A, b)
         cond = _equilibrated_cond(A)
         err = _rel_err(x, xref, ref.num_faces, ref.num_cells, A, b)
         if err > 10 * tol * cond:
             raise Violation(f"sequence:{'reuse' if reuse else 'fresh'}:{form}:{solver}",
-                            f"system {k} of the sequence: max|x-x_ref| = {err:.3e}", t)
+                            f"system {k} of the sequence {steps}: max|x-x_ref| = {err:.3e}", t)
         kept.append((x, xref, cond, A, b))
     # solutions handed out earlier stay what they were (no buffer shared between calls)
     for k, (x, xref, cond, A, b) in enumerate(kept):
         if _rel_err(x, xref, ref.num_faces, ref.num_cells, A, b) > 10 * tol * cond:
             raise Violation(f"sequence:overwritten:{form}:{solver}", f"the solution returned for system {k} was "
                             f"changed by a later solve on the same object", t)
-    return Outcome(True, [case["shape"], case["vox"], form, solver, case["same_matrix"], case["pseed"]],
-                   (form, solver, "same-matrix" if case["same_matrix"] else "changing-matrix"),
-                   evals=case["n"])
+    return Outcome(True, [case["shape"], case["vox"], form, solver, steps, case["pseed"]],
+                   (form, solver, "first-call-reuse" if steps[0][1] else "first-call-fresh",
+                    "reuses" if any(r for _, r in steps[1:]) else "no-reuse",
+                    "matrix-changes" if any(n for n, _ in steps[1:]) else "matrix-constant"),
+                   evals=len(steps))
 
 
 def gen_shared_options(tier):
